@@ -2397,7 +2397,7 @@ func (c *Ctx) ruleJ2() {
 			}
 			cons := fmt.Sprintf("%s→head-fetch#length#%d", fnKey(f), k)
 			k++
-			why := shrinks(lenVal, 0, map[ssa.Value]bool{})
+			why := c.shrinks(lenVal, 0, map[ssa.Value]bool{})
 			if why == "" {
 				c.ok("J2", cons, call.Pos(), "the per-head fetch length is the limit itself (or unlimited): nothing on its way can make it smaller")
 			} else {
@@ -2431,7 +2431,7 @@ func (c *Ctx) calledOnlyFrom(f *ssa.Function, name string) bool {
 
 // shrinks: some value stored into the cell (followed through cells, phis and parameters filled
 // by static callers) is produced by an operation that can reduce it.
-func shrinks(v ssa.Value, depth int, seen map[ssa.Value]bool) string {
+func (c *Ctx) shrinks(v ssa.Value, depth int, seen map[ssa.Value]bool) string {
 	if v == nil || seen[v] || depth > 8 {
 		return ""
 	}
@@ -2440,7 +2440,7 @@ func shrinks(v ssa.Value, depth int, seen map[ssa.Value]bool) string {
 	case *ssa.Alloc:
 		for _, r := range *x.Referrers() {
 			if st, ok := r.(*ssa.Store); ok && st.Addr == ssa.Value(x) {
-				if w := shrinks(st.Val, depth+1, seen); w != "" {
+				if w := c.shrinks(st.Val, depth+1, seen); w != "" {
 					return w
 				}
 			}
@@ -2453,23 +2453,46 @@ func shrinks(v ssa.Value, depth int, seen map[ssa.Value]bool) string {
 				if mc, ok := in.(*ssa.MakeClosure); ok && mc.Fn == ssa.Value(fn) {
 					for i, fv := range fn.FreeVars {
 						if fv == x && i < len(mc.Bindings) && why == "" {
-							why = shrinks(mc.Bindings[i], depth+1, seen)
+							why = c.shrinks(mc.Bindings[i], depth+1, seen)
 						}
 					}
 				}
 			})
 			return why
 		}
+	case *ssa.Parameter:
+		// a limit handed to a helper: what the static callers hand in
+		fn := x.Parent()
+		idx := -1
+		for i, p := range fn.Params {
+			if p == x {
+				idx = i
+			}
+		}
+		why := ""
+		if idx >= 0 && isIntType(x.Type()) {
+			for _, g := range c.RepoFns {
+				if c.isTestFile(g.Pos()) || why != "" {
+					continue
+				}
+				eachCall(g, func(cs ssa.CallInstruction) {
+					if why == "" && cs.Common().StaticCallee() == fn && idx < len(cs.Common().Args) {
+						why = c.shrinks(cs.Common().Args[idx], depth+1, seen)
+					}
+				})
+			}
+		}
+		return why
 	case *ssa.UnOp:
-		return shrinks(x.X, depth+1, seen)
+		return c.shrinks(x.X, depth+1, seen)
 	case *ssa.Phi:
 		for _, e := range x.Edges {
-			if w := shrinks(e, depth+1, seen); w != "" {
+			if w := c.shrinks(e, depth+1, seen); w != "" {
 				return w
 			}
 		}
 	case *ssa.Convert:
-		return shrinks(x.X, depth+1, seen)
+		return c.shrinks(x.X, depth+1, seen)
 	case *ssa.BinOp:
 		switch x.Op {
 		case token.SUB:
@@ -2481,10 +2504,10 @@ func shrinks(v ssa.Value, depth int, seen map[ssa.Value]bool) string {
 		case token.SHR:
 			return "a shift"
 		}
-		if w := shrinks(x.X, depth+1, seen); w != "" {
+		if w := c.shrinks(x.X, depth+1, seen); w != "" {
 			return w
 		}
-		return shrinks(x.Y, depth+1, seen)
+		return c.shrinks(x.Y, depth+1, seen)
 	case *ssa.Call:
 		if b, ok := x.Call.Value.(*ssa.Builtin); ok && b.Name() == "min" {
 			return "min()"
@@ -2495,7 +2518,7 @@ func shrinks(v ssa.Value, depth int, seen map[ssa.Value]bool) string {
 				if r, ok := in.(*ssa.Return); ok && why == "" {
 					for _, rv := range r.Results {
 						if isIntType(rv.Type()) && why == "" {
-							why = shrinks(rv, depth+1, seen)
+							why = c.shrinks(rv, depth+1, seen)
 						}
 					}
 				}
